@@ -73,8 +73,9 @@ def cases(draw, subject, lengths):
     if shape == "zero_volume":
         for r in rows:
             r[4] = 0
-    tail = draw(gs.price_rows(5, regimes=("walk", "up", "down"), start_regime="walk", grid=(0.25, 2), base=400))
-    case = {"pattern": rows, "tail": tail, "shape": shape, "tf": draw(st.sampled_from((None, None, "T5"))), "lengths": list(lengths)}
+    chunk = draw(st.sampled_from((1, 1, 1, 3, 4)))  # measured appends deliver `chunk` candles each
+    tail = draw(gs.price_rows(2 + 3 * chunk, regimes=("walk", "up", "down"), start_regime="walk", grid=(0.25, 2), base=400))
+    case = {"pattern": rows, "tail": tail, "chunk": chunk, "shape": shape, "tf": draw(st.sampled_from((None, None, "T5"))), "lengths": list(lengths)}
     if subject == "hexital":
         k = draw(st.integers(2, 5))
         members = []
@@ -84,6 +85,10 @@ def cases(draw, subject, lengths):
         case["members"] = members
     elif subject == "fn:custom":
         case["cfg"] = {"custom": "sparse_signal", "kw": {"factor": draw(st.sampled_from((2, 3, 100)))}}
+        return case
+    elif subject == "fn:over-sparse":
+        # a movement function reading a series that is mostly missing (the sparse signal above)
+        case["cfg"] = {"over_sparse": draw(st.sampled_from(("highest", "lowest", "rising", "falling", "mean_rising", "value_range", "highestbar"))), "kw": {"length": draw(st.integers(2, 6)), "factor": draw(st.sampled_from((3, 100)))}}
         return case
     else:
         cfg = _cap(draw(gc.config(subject)))
@@ -148,6 +153,13 @@ def _build(case, n):
             names.add(ind.name)
             inds.append(ind)
         obj = Hexital("c07", hist, inds, **({"timeframe": case["tf"]} if case.get("tf") else {}))
+    elif "over_sparse" in case["cfg"]:
+        from hexital.analysis import MOVEMENT_MAP
+
+        kw = case["cfg"]["kw"]
+        sparse = Amorph(analysis=sparse_signal, factor=kw["factor"])
+        over = Amorph(analysis=MOVEMENT_MAP[case["cfg"]["over_sparse"]], indicator="sparse_signal", length=kw["length"])
+        obj = Hexital("c07", hist, [sparse, over], **({"timeframe": case["tf"]} if case.get("tf") else {}))
     elif "custom" in case["cfg"]:
         obj = Amorph(analysis=sparse_signal, candles=hist, **case["cfg"]["kw"], **({"timeframe": case["tf"]} if case.get("tf") else {}))
     else:
@@ -157,8 +169,8 @@ def _build(case, n):
 
 
 def run_case(case) -> Result:
-    subject = "hexital" if "members" in case else "fn:custom" if "custom" in case["cfg"] else gc.subject_of(case["cfg"])
-    labels = ["shape:" + case["shape"]] + (["has_tf"] if case.get("tf") else [])
+    subject = "hexital" if "members" in case else "fn:custom" if "custom" in case["cfg"] else "fn:over-sparse" if "over_sparse" in case["cfg"] else gc.subject_of(case["cfg"])
+    labels = ["shape:" + case["shape"]] + (["has_tf"] if case.get("tf") else []) + (["chunked_appends"] if case.get("chunk", 1) > 1 else [])
     counter = LineCounter()
     work = {}
     try:
@@ -168,8 +180,10 @@ def run_case(case) -> Result:
             for row in tail[:2]:
                 obj.append(mk_candles([row]))
             per = []
-            for row in tail[2:]:
-                cs = mk_candles([row])
+            k = case.get("chunk", 1)
+            rest = tail[2:]
+            for a in range(0, len(rest), k):
+                cs = mk_candles(rest[a : a + k])
                 per.append(counter.measure(lambda: obj.append(cs)))
             work[n] = max(per)
             del obj
@@ -184,7 +198,7 @@ def run_case(case) -> Result:
         if work[n] > 1.25 * work[n1] + 40:
             viol.append(Violation("work-grows-with-history", "lines-per-append", f"executed lines per append: {work} (history lengths {n1}/{n2}/{n3}); shape {case['shape']}, tf {case.get('tf')}", subject))
             break
-    w = max([gc.warmup(m["cfg"]) for m in case["members"]]) if "members" in case else 2 if "custom" in case["cfg"] else gc.warmup(case["cfg"])
+    w = max([gc.warmup(m["cfg"]) for m in case["members"]]) if "members" in case else 2 if "custom" in case["cfg"] else 8 if "over_sparse" in case["cfg"] else gc.warmup(case["cfg"])
     return Result(viol, n1 >= 2 * w, labels, {"max_lines_per_append": work[n3], "measured_appends": 9})
 
 
@@ -196,6 +210,7 @@ def shards(tier):
         cost = 4 if s in ("ADX", "TSI", "STOCH", "MACD", "HMA", "Supertrend", "KC", "BBANDS") else 1
         out.append(Shard(s, (lambda s=s: cases(s, lengths)), k, subject=s, cost=cost))
     out.append(Shard("fn:custom", lambda: cases("fn:custom", lengths), k, subject="fn:custom"))
+    out.append(Shard("fn:over-sparse", lambda: cases("fn:over-sparse", lengths), k * 2, subject="fn:over-sparse"))
     for i in range(4):
         out.append(Shard(f"hexital-{i}", lambda: cases("hexital", lengths), k, subject="hexital", cost=8))
     return out
